@@ -1,4 +1,6 @@
 import OutrankModel.Lemmas.MIReal
+import OutrankModel.Lemmas.MISpec
+import OutrankModel.Lemmas.MIDistinct
 /-!
 # C03 – cardinality correction subtracts the displaced-copy noise floor
 -/
@@ -7,27 +9,27 @@ namespace MI
 /-- C03-1: with correction on, the score of feature Y against target X is `H(Y* | X) − H(Y | X)`. -/
 theorem corrected_identity (Y X : List Nat) (h : Y.length = X.length) (hn : 0 < X.length) (hne : Y ≠ X) :
     estimator realOps Y X 1 1 true = .ok (condEntropy (ystar Y X) X - condEntropy Y X) := by
-  sorry
+  exact estimator_corr Y X h hn hne
 
 /-- the executable list-form spec the driver evaluates is that difference -/
 theorem correctedSpecL_eq (Y X : List Nat) (h : Y.length = X.length) :
     correctedSpecL realOps Y X = condEntropy (ystar Y X) X - condEntropy Y X := by
-  sorry
+  exact correctedSpecL_real Y X
 
 /-- C03-2: a constant feature scores 0 against every target. -/
 theorem corrected_const (Y X : List Nat) (h : Y.length = X.length) (hn : 0 < X.length)
     (hc : ∀ a ∈ Y, ∀ b ∈ Y, a = b) : estimator realOps Y X 1 1 true = .ok 0 := by
-  sorry
+  exact estimator_const Y X h hn hc
 
 /-- C03-3: an all-distinct identifier feature scores 0 against every (other) target. -/
 theorem corrected_alldistinct (Y X : List Nat) (h : Y.length = X.length) (hn : 0 < X.length)
     (hd : Y.Nodup) (hne : Y ≠ X) : estimator realOps Y X 1 1 true = .ok 0 := by
-  sorry
+  exact estimator_alldistinct Y X h hn hd hne
 
 /-- C03-4: a feature scored against itself scores its entropy. -/
 theorem corrected_self (X : List Nat) (hn : 0 < X.length) :
     estimator realOps X X 1 1 true = .ok (entropy X) := by
-  sorry
+  exact estimator_self_entropy X true
 
 example : ([0, 1, 2, 3] : List Nat).Nodup ∧ ([0, 1, 2, 3] : List Nat) ≠ [0, 0, 1, 1] := by decide
 
